@@ -7,6 +7,7 @@ import (
 	"encoding/hex"
 	"encoding/json"
 	"fmt"
+	"github.com/pip-services3-gox/pip-services3-expressions-gox/calculator/functions"
 	"math/rand"
 	"os"
 	"path/filepath"
@@ -104,6 +105,16 @@ func hold(what string, now func() string) {
 	h.then = string([]byte(h.render())) // a copy of its own: the library may hand out text that shares storage
 	heldAcross = append(heldAcross, h)
 }
+
+// the names of the default functions, read once before any case runs (a generator must not depend on what earlier cases did
+// to the library's tables)
+var defaultFnNames = func() []string {
+	var ns []string
+	for _, f := range functions.NewDefaultFunctionCollection().GetAll() {
+		ns = append(ns, f.Name())
+	}
+	return ns
+}()
 
 // cl copies a text the library handed out (it may share storage that later calls overwrite)
 func cl(s string) string { return string([]byte(s)) }
